@@ -1276,6 +1276,8 @@ fn empty_tag_suffix(doc: &str) -> bool {
 /// for streaming input (by characters for in-memory input); the only position on the same
 /// line after a comment is the end of input, so only errors located there differ.
 fn multibyte_comment_at_eof(doc: &str) -> bool {
+    // (a NUL ends the input for the parser: what follows it is never scanned)
+    let doc = doc.split('\0').next().unwrap_or("");
     let last = doc.rsplit(['\n', '\r']).next().unwrap_or("");
     // a comment starts at a '#' at the beginning of the line or after a blank
     let b = last.as_bytes();
